@@ -140,4 +140,15 @@ Section Encode.
     rewrite E1 in A1. rewrite E2 in A2. injection A1 as <-. injection A2 as <-. congruence.
   Qed.
 
+  (* the decodable elements are exactly the non-zero quadratic residues mod p *)
+  Theorem member_iff_quadratic_residue a :
+    member P a <-> (1 <= a < p /\ exists e, 0 < e < p /\ (e ^ 2) mod p = a).
+  Proof.
+    unfold member. split.
+    - intros [Ha H]. split; [exact Ha|].
+      apply (member_iff_qr p q a (sp_p P S) Hrel (sp_odd P S) ltac:(lia) Ha). exact H.
+    - intros [Ha H]. split; [exact Ha|].
+      apply (member_iff_qr p q a (sp_p P S) Hrel (sp_odd P S) ltac:(lia) Ha). exact H.
+  Qed.
+
 End Encode.
